@@ -11,6 +11,24 @@ pub assume_specification [usize::div_ceil] (a: usize, b: usize) -> (r: usize)
     requires b != 0,
     ensures r as int == (a as int + b as int - 1) / (b as int);
 
+// rustdoc Option::is_some_and: "Returns true if the option is a Some and the value inside of it matches a predicate."
+// (`f` is called exactly once, on the contained value, iff the option is Some; its result is returned.)
+pub assume_specification<T, F: FnOnce(T) -> bool> [Option::<T>::is_some_and] (o: Option<T>, f: F) -> (r: bool)
+    requires o is Some ==> f.requires((o->0,)),
+    ensures
+        o is None ==> !r,
+        o is Some ==> f.ensures((o->0,), r);
+
+// rustdoc Option::map_or_else: "Computes a default function result (if none), or applies a different function to the
+// contained value (if any)."
+pub assume_specification<T, U, D: FnOnce() -> U, F: FnOnce(T) -> U> [Option::<T>::map_or_else] (o: Option<T>, default: D, f: F) -> (r: U)
+    requires
+        o is None ==> default.requires(()),
+        o is Some ==> f.requires((o->0,)),
+    ensures
+        o is None ==> default.ensures((), r),
+        o is Some ==> f.ensures((o->0,), r);
+
 // the only external_body function: a diverging panic (panicking is an allowed outcome; UB is not)
 #[verifier::external_body]
 fn vpanic() -> ! { panic!() }
